@@ -172,8 +172,8 @@ def mc_plans(chk, pid):
                 ("waiter", sc.resumable_wait(), ["Inv_C12c"], [], {"ext_menu": [("Resp1", None), ("Resp", None)], "max_ext": 2})],
         "C31": [("fanout_timeout", sc.fanout(2, 2, 2, 5, 1, timeout=8) if q else sc.fanout(2, 3, 2, 5, 1, timeout=8), ["Inv_C31", "Inv_C04"], [], {"max_cancel": 1}),
                 ("pipeline", sc.pipeline(retry_max=2, delay=3, fail_until=1, timeout=5), ["Inv_C31", "Inv_C04"], [], {"max_cancel": 1})],
-        "C02": [("overlap", sc.overlap(1, 2, 2), [], [], {"ext_menu": [("A", None), ("D", None)], "max_ext": 1}),
-                ("targeted", sc.targeted(2), [], [], {"ext_menu": [("A", "c"), ("D", None)], "max_ext": 1})],
+        "C02": [("overlap", sc.overlap(1, 1, 2), [], [], {"ext_menu": [("A", None), ("D", None)], "max_ext": 1, "replay": True}),
+                ("targeted", sc.targeted(2), [], [], {"ext_menu": [("A", "c"), ("D", None)], "max_ext": 1, "replay": True})],
         "C05": [("attempts", sc.pipeline(retry_max=2, delay=2, fail_until=99), ["Inv_C06"], [], {}),
                 ("stop_delay", sc.pipeline(retry_max=None, stop_delay=3, delay=2, fail_until=99), [], [], {})],
         "C06": [("chain_asis", sc.pipeline(retry_max=4, wait=["chain", [5, 1]], fail_until=99), ["Inv_C06"], [],
@@ -182,28 +182,29 @@ def mc_plans(chk, pid):
                  {"dev": {"wait_index_one_based": False}}),
                 ("incr_design", sc.pipeline(retry_max=4, wait=["incr", 6, -2, 100], fail_until=99), ["Inv_C06"], [],
                  {"dev": {"wait_index_one_based": False}})],
-        "C08": [("scoped", sc.handlers("scoped", 2, reenter=True), ["Inv_C08"], [], {}),
+        "C08": [("scoped", sc.handlers("scoped", 2, reenter=True), ["Inv_C08"], [], {"replay": True}),
                 ("both", sc.handlers("both", 1), ["Inv_C08"], [], {}),
                 ("wild_fails", sc.handlers("wildcard", 1, handler_fails=True), ["Inv_C08"], [], {})],
         "C09": [("collect", sc.collector(2, ("A", "A"), 3), ["Inv_C09"], [], {"expect_violation": "Inv_C09"}),
-                ("collect_nw1", sc.collector(1, ("A", "A"), 4) if q else sc.collector(1, ("A", "A", "B"), 6), ["Inv_C09"], [], {})],
+                ("collect_nw1", sc.collector(1, ("A", "A"), 4) if q else sc.collector(1, ("A", "A", "B"), 6), ["Inv_C09"], [], {"replay": True})],
         "C10": [("waiter_defect_variant", sc.waiter2(7), ["Inv_C10", "Inv_C10_Timeout", "Inv_C10_WaiterEvent"], [],
                  {"ext_menu": [("Resp", None)], "max_ext": 2, "expect_violation": "Inv_C10_WaiterEvent",
                   "dev": {"match_done_waiters": True}}),
                 ("waiter2", sc.waiter2(7), ["Inv_C10", "Inv_C10_Timeout", "Inv_C10_WaiterEvent"], [],
-                 {"ext_menu": [("Resp", None)], "max_ext": 3}),
+                 {"ext_menu": [("Resp", None)], "max_ext": 3, "replay": True}),
                 ("waiter_reqs", sc.waiter(None, {"k": 1}), ["Inv_C10", "Inv_C10_Timeout"], [],
                  {"ext_menu": [("Resp", None), ("Resp1", None)], "max_ext": 2, "dev": {"match_done_waiters": False}})],
         "C03": [("fanout_delay", sc.fanout(2, 2, 2, 5, 1) if q else sc.fanout(2, 3, 2, 5, 1), ["Inv_C03a"], ["Act_C03b_AsCoded"], {}),
                 ("fanout_delay_strict", sc.fanout(2, 2, 2, 5, 1), ["Inv_C03a"], ["Act_C03b"], {"expect_violation": "Act_C03b"}),
-                ("fanout_nodelay", sc.fanout(1, 3, None, 0, 0), ["Inv_C03a"], ["Act_C03b_AsCoded"], {})],
+                ("fanout_nodelay", sc.fanout(1, 3, None, 0, 0), ["Inv_C03a"], ["Act_C03b_AsCoded"], {"replay": True})],
         "C04": [("fanout", sc.fanout(2, 3, 2, 0, 1, timeout=20) if q else sc.fanout(2, 4, 2, 5, 1, timeout=20), ["Inv_C04", "Inv_C31"], [], {"max_cancel": 1}),
-                ("double_stop", sc.double_stop(2), ["Inv_C04", "Inv_C31"], [], {"max_cancel": 1})],
+                ("double_stop", sc.double_stop(2), ["Inv_C04", "Inv_C31"], [], {"max_cancel": 1, "replay": True})],
         "C35": [("fanout", sc.fanout(2, 3, 2, 0, 1) if q else sc.fanout(2, 4, 2, 5, 1), ["Inv_C35"], [], {}),
-                ("waiter", sc.waiter(5), ["Inv_C35"], [], {"ext_menu": [("Resp", None)], "max_ext": 2})],
+                ("waiter", sc.waiter(5), ["Inv_C35"], [], {"ext_menu": [("Resp", None)], "max_ext": 2, "replay": True})],
         "C11": [("fanout", sc.fanout(2, 2, 2, 0, 1) if q else sc.fanout(2, 3, 2, 5, 1), ["Inv_C11"], [], {"track_log": True}),
                 ("waiter", sc.waiter(5), ["Inv_C11"], [], {"ext_menu": [("Resp", None)], "max_ext": 2, "track_log": True})],
-        "C01": [("fanout", sc.fanout(2, 3, 2, 0, 1) if q else sc.fanout(2, 4, 2, 5, 1), ["Inv_C01", "Inv_C03a"], [], {}),
+        "C01": [("fanout", sc.fanout(2, 3, 2, 0, 1) if q else sc.fanout(2, 4, 2, 5, 1), ["Inv_C01", "Inv_C03a"], [], {"replay": q}),
+                ("fanout_small", sc.fanout(2, 2, 2, 0, 1), ["Inv_C01"], [], {"replay": True}),
                 ("collect", sc.collector(2, ("A", "A"), 3), ["Inv_C01"], [], {})],
     }
     return plans.get(pid, [])
@@ -211,7 +212,8 @@ def mc_plans(chk, pid):
 
 def model_check(chk, pid):
     for (name, prog, inv, props, kw) in mc_plans(chk, pid):
-        mc_run(chk, "%s_%s" % (pid, name), prog, list(dict.fromkeys(BASE_INV + inv)), props, **kw)
+        mc_run(chk, "%s_%s" % (pid, name), prog, list(dict.fromkeys(BASE_INV + inv)), props,
+               **{k: v for k, v in kw.items() if k != "replay"})
 
 
 def standard_run(chk, pid, families, kinds, key_of=None, nontrivial=None, extra=None, describe=None, collect_kw=None,
@@ -224,8 +226,14 @@ def standard_run(chk, pid, families, kinds, key_of=None, nontrivial=None, extra=
     pool = ThreadPoolExecutor(max_workers=6)
     f_conf = pool.submit(conform_reducer, chk, items) if conform else None
     f_obs = pool.submit(observe, chk, pid, items, kinds, extra, None, keep)
-    f_mc = [pool.submit(mc_run, chk, "%s_%s" % (pid, name), prog, list(dict.fromkeys(BASE_INV + inv)), props, **kw)
-            for (name, prog, inv, props, kw) in mc_plans(chk, pid)]
+    plans = mc_plans(chk, pid)
+    f_mc = [pool.submit(mc_run, chk, "%s_%s" % (pid, name), prog, list(dict.fromkeys(BASE_INV + inv)), props,
+                        **{k: v for k, v in kw.items() if k != "replay"})
+            for (name, prog, inv, props, kw) in plans]
+    # spec -> code: behaviours of Engine.tla (edge-covering paths of TLC's state graph) replayed on the real engine
+    f_mc += [pool.submit(replay_model, chk, "%s_%s" % (pid, name), prog, kw.get("ext_menu", ()), kw.get("max_ext", 1),
+                         kw.get("max_cancel", 0), chk.pick(40, 400))
+             for (name, prog, inv, props, kw) in plans if kw.get("replay")]
     verdicts = f_obs.result()
     if f_conf:
         f_conf.result()
@@ -280,3 +288,117 @@ def standard_run(chk, pid, families, kinds, key_of=None, nontrivial=None, extra=
         "observation through a Runtime subclass returning a recording InternalRunAdapter and harness-owned step bodies",
         "environment actions are issued at quiescence points of the event loop; async steps only (no executor threads)"]
     return items, verdicts
+
+
+# ------------------------------------------------------------------ spec -> code: replay TLC behaviours of Engine.tla
+
+def _norm(x):
+    """Normalise TLA+ values (tlaval) and JSON projections to one comparable shape; empty seq/function/record are equal."""
+    if isinstance(x, dict):
+        if not x:
+            return "<empty>"
+        return {str(k): _norm(v) for k, v in x.items()}
+    if isinstance(x, (list, tuple)):
+        if len(x) == 0:
+            return "<empty>"
+        return [_norm(v) for v in x]
+    if isinstance(x, (set, frozenset)):
+        return sorted((_norm(v) for v in x), key=repr) or "<empty>"
+    return str(x) if not isinstance(x, (int, bool)) else x
+
+
+def _no_times(bs):
+    out = {"running": bs["running"], "steps": {}}
+    for s, ws in bs["steps"].items():
+        out["steps"][s] = {"queue": [{k: v for k, v in a.items() if k != "first"} for a in ws["queue"]],
+                           "ip": [{k: v for k, v in a.items() if k != "first"} for a in ws["ip"]],
+                           "coll": ws["coll"], "waiters": ws["waiters"]}
+    return out
+
+
+def replay_model(chk, name, prog, ext_menu=(), max_ext=1, max_cancel=0, max_paths=60, max_len=60):
+    """Dump the state graph of Engine.tla for `prog`, walk edge-covering paths, perform every environment action of a
+    path on the REAL engine (the loop performs the internal actions itself) and compare the model's reducer state with
+    the live runner state at every quiescence point.  Returns (paths, compared, mismatches)."""
+    import re
+    from harness import tlaval
+    from harness.drivers import engine as en
+    d, dev, cfg = mc_module(chk, name, prog, ext_menu, max_ext, max_cancel)
+    B = lambda b: "TRUE" if b else "FALSE"
+    lines = ["CONSTANTS", "  Cfg <- MC_Cfg", "  Prog <- MC_Prog", "  ExtMenu <- MC_ExtMenu", "  MaxExt = %d" % max_ext,
+             "  MaxCancel = %d" % max_cancel, "  TimeoutMs <- MC_TimeoutMs", "  WallEpoch = 99000000",
+             "  Dev_MatchDoneWaiters = " + B(dev["match_done_waiters"]), "  Dev_WaitIndexOneBased = " + B(dev["wait_index_one_based"]),
+             "  Dev_NoHandlersUnvalidated = " + B(dev["no_handlers_unvalidated"]), "  Dev_ClockMix = " + B(dev["clock_mix"]),
+             "  TrackLog = FALSE", "INIT Init", "NEXT Next"]
+    (d / ("MC_%s.cfg" % name)).write_text("\n".join(lines) + "\n")
+    dump = d / "graph"
+    res = tlc.run(d / ("MC_%s.tla" % name), d / ("MC_%s.cfg" % name), workdir=chk.work, deadlock=False, coverage=False,
+                  workers=4, dump=dump, timeout=600)
+    chk.record_tlc("Engine/replay_" + name, res)
+    chk.require_tlc_ok("replay_" + name, res)
+    g = tlc.load_dot(str(dump) + ".dot")
+    paths = tlc.covering_paths(g, max_len=max_len)
+    rng = random.Random(chk.seed)
+    if len(paths) > max_paths:
+        paths = rng.sample(paths, max_paths)
+    env_re = re.compile(r"^(WorkerFinishAt|ExtSend|ExtCancel|Advance)(?:\((.*)\))?$", re.S)
+    compared = mism = 0
+    first_mismatch = None
+
+    def model_quiet(st):
+        return (st["outcome"] != "none") or (
+            st["phase"] == "wait" and not any(dict(t)["st"] == "done" for t in st["tasks"])
+            and st["pull"]["st"] != "got" and not (st["pull"]["st"] == "waiting" and len(st["mailbox"]) > 0)
+            and not any(dict(w)["at"] <= st["now"] for w in st["wake"]))
+
+    for path in paths:
+        s = en.EngineSystem(prog, observe_c11=False)
+        try:
+            s.start("s0")
+            done_prefix = []
+            for (src, dst, label) in path:
+                done_prefix.append(label[:50])
+                m = env_re.match(label.strip())
+                if m:
+                    act, arg = m.group(1), m.group(2)
+                    if act == "WorkerFinishAt":
+                        st_, w_ = tlaval.parse("<<" + arg + ">>")
+                        t = [dict(x) for x in g.state(src)["tasks"] if dict(x)["step"] == st_ and dict(x)["wid"] == w_][0]
+                        keys = [k for k in s.rig.open_gates() if k[0] == t["step"] and k[1] == t["uid"]]
+                        if not keys:
+                            break                       # not realisable at this point on the real engine: stop this path
+                        key = keys[0]
+                        n = 0
+                        while key in s.rig.open_gates() and n < 8:     # a body with several gates finishes in one model step
+                            s.apply(["release"] + list(key))
+                            n += 1
+                    elif act == "ExtSend":
+                        mrec = tlaval.parse(arg)
+                        s.apply(["send", mrec["ty"], "x%d" % s.ext_sent, mrec["target"], mrec["k"]])
+                    elif act == "ExtCancel":
+                        s.apply(["cancel"])
+                    elif act == "Advance":
+                        nt = s.loop.next_timer()
+                        if nt is None:
+                            break
+                        s.apply(["advance", en.ms(nt - s.t0), "x"])
+                stt = g.state(dst)
+                runner = next(iter(en._RUNNERS.values()), None)
+                if runner is None or not model_quiet(stt):
+                    continue
+                compared += 1
+                a = _norm(_no_times(tlaval.to_py(stt["bs"])))
+                b = _norm(_no_times(en.p_state(runner.state)))
+                real_outcome = (s.outcome or {"kind": "none"})["kind"]
+                if a != b or (stt["outcome"] not in (real_outcome, "error")):
+                    mism += 1
+                    if first_mismatch is None:
+                        first_mismatch = {"path": done_prefix, "model": a, "real": b,
+                                          "model_outcome": stt["outcome"], "real_outcome": real_outcome}
+                    break
+        finally:
+            s.close()
+    if first_mismatch:
+        chk.note("spec->code replay drift (%s): %s" % (name, str(first_mismatch)[:600]))
+    chk.add(model_paths_replayed=len(paths), model_states_compared=compared, model_replay_mismatches=mism)
+    return len(paths), compared, mism
